@@ -3,10 +3,11 @@ use crate::engine::Check;
 pub mod c01;
 pub mod c02;
 pub mod c03;
+pub mod c04;
 pub mod c18;
 
 pub fn all() -> Vec<&'static dyn Check> {
-    vec![&c01::C01, &c02::C02, &c03::C03, &c18::C18]
+    vec![&c01::C01, &c02::C02, &c03::C03, &c04::C04, &c18::C18]
 }
 
 pub fn lookup(id: &str) -> Option<&'static dyn Check> {
